@@ -370,13 +370,8 @@ func genOpts(rt *rapid.T, set lp.Settings, keys []string) Opts {
 	std := []string{tsF, lvlF, callerF, msgF}
 	var o Opts
 	if rapid.IntRange(0, 2).Draw(rt, "po") != 0 {
+		// nil = default order; an empty, non-nil PartsOrder configures no parts at all (fields only)
 		o.PartsOrder = subsetPerm(rt, std, "parts")
-		if o.PartsOrder == nil {
-			o.PartsOrder = []string{}
-		}
-		if len(o.PartsOrder) == 0 {
-			o.PartsOrder = nil // an empty PartsOrder means the default order
-		}
 	}
 	if rapid.IntRange(0, 3).Draw(rt, "pe") == 0 {
 		o.PartsExclude = subsetPerm(rt, std, "pex")
